@@ -5,8 +5,8 @@ VERIF = os.path.dirname(os.path.dirname(os.path.abspath(__file__)))
 TRUST = "trusted: rustc, gcc/g++ 12, node 20, Miri, ASan/UBSan/LSan, valgrind; the generators, models and parsers under /verif/engine; x86-64 Linux only"
 CLAIMED = {
  "C01": ("exploration", "differential execution of generated bridge crates: C11 driver against freshly generated headers vs. event log written by the Rust method bodies, compared record-by-record with the script's prediction (callbacks with Option / slice / string / struct arguments and Option / enum / struct returns; every third program with traits whose vtables the driver implements); ASan+UBSan always, valgrind on a subset", "differential execution against a scripted event-log oracle under ASan/UBSan/valgrind", "bridgegen+cdrv", "3 C01"),
- "C03": ("exploration", "seeded random histories over runtime FFI types with a drop-counting monitor, run natively (debug/release), under rustc ASan+LSan, valgrind memcheck and Miri; plus generated bridges (real proc macro) driven by scripted histories through the generated C API (gcc ASan+UBSan, valgrind subset; callbacks and foreign trait objects with destructors), the generated C++ owning wrappers (g++ ASan) and a Rust foreign-caller driver interpreted by Miri, with a NEW/DROP/CBDROP conservation checker over every observed event log", "drop-count monitor + ASan/LSan + valgrind + Miri on random conversion histories", "rtmon", "3 C03"),
- "C12": ("fault_enumeration", "grow() is the fault injector: every consumed fail/exact/more pattern x every chunk sequence up to the bound x initial capacities, model compared after every write; exact-size heap buffers under ASan/valgrind/Miri, canary monitor natively; plus write-heavy generated bridges through the generated C and C++ APIs (ASan) and a Rust foreign-caller driver under Miri", "scripted grow-fault enumeration against an executable model, under ASan/valgrind/Miri", "rtmon", "3 C12"),
+ "C03": ("exploration", "seeded random histories over runtime FFI types with a drop-counting monitor, run natively (debug/release), under rustc ASan+LSan, valgrind memcheck and Miri; plus generated bridges (real proc macro) driven by scripted histories through the generated C API (gcc ASan+UBSan, valgrind subset; callbacks and foreign trait objects with destructors), the generated C++ owning wrappers (g++ ASan) and a Rust foreign-caller driver interpreted by Miri, with a NEW/DROP/CBDROP conservation checker over every observed event log; objects given to callbacks for good, two callbacks per method, allocation-failure injection for the Rust-owned writer (one scenario per process)", "drop-count monitor + ASan/LSan + valgrind + Miri on random conversion histories", "rtmon", "3 C03"),
+ "C12": ("fault_enumeration", "grow() is the fault injector: every consumed fail/exact/more pattern x every chunk sequence up to the bound x initial capacities, model compared after every write; exact-size heap buffers under ASan/valgrind/Miri, canary monitor natively; plus write-heavy generated bridges through the generated C and C++ APIs (ASan) and a Rust foreign-caller driver under Miri; allocation-failure injection (a refused growth ends in the allocation-failure abort or is reported with the buffer still owned once); flushes in mid-output", "scripted grow-fault enumeration against an executable model, under ASan/valgrind/Miri", "rtmon", "3 C12"),
  "C16": ("exploration", "exhaustive comparison of diplomat_is_str with an independent RFC 3629 automaton (all strings <=3 bytes, all 4-byte strings with lead F0..F7) and round-trip monitors over all element types and lengths, under ASan/valgrind/Miri", "exhaustive differential run against an RFC 3629 automaton; round-trip monitors under ASan/valgrind/Miri", "rtmon", "3 C16"),
 }
 CLAIMED.update(json.load(open(os.path.join(VERIF, "tools", "claimed_extra.json"))) if os.path.exists(os.path.join(VERIF, "tools", "claimed_extra.json")) else {})
